@@ -35,8 +35,9 @@ func genHalt(c *Ctx) error {
 	if c.Flag("tiny") {
 		nHist = 3
 	}
+	directedInterruptedRelease(c)
 	directedHaltRecoveryFault(c)
-	if c.Arg == "recovery-fault" {
+	if c.Flag("recovery-fault") {
 		return nil
 	}
 	directedHaltCatchUp(c)
@@ -578,5 +579,109 @@ func directedHaltRecoveryFault(c *Ctx) {
 		cs.End()
 		c.Count("directed.halt-recovery-fault")
 		c.Nontrivial(fmt.Sprintf("directed-halt-recovery-fault-%v", wal))
+	}
+}
+
+// directedInterruptedRelease: the holder's release of the halt lock is interrupted (the request's
+// context is cancelled, as a FUSE INTERRUPT or a dropped connection does) — either while the
+// holder's own recovery waits behind an application connection or right before the request to the
+// primary — and is then retried (or the lock file is closed).  After the retry the lock is gone on
+// both sides: the primary can write again and the former holder cannot.
+func directedInterruptedRelease(c *Ctx) {
+	r := c.Rng
+	for _, blocked := range []bool{true, false} {
+		for _, short := range []bool{false, true} {
+			cs := c.Begin()
+			do := func(op string) string { c.Count("op." + strings.Fields(op)[0]); return cs.Do(op) }
+			what := fmt.Sprintf("interrupted release (blocked=%v, short=%v)", blocked, short)
+			mk := func(k int) *pager {
+				p := newPager(r, 1024, func(op string) string { return do(fmt.Sprintf("n %d %s", k, op)) })
+				p.journalMode = "DELETE"
+				return p
+			}
+			hist := map[string]bool{}
+			record := func(p *pager, st string) {
+				if pos := posOf(st); pos != "" && !strings.HasPrefix(pos, "0:") && !hist[pos] {
+					hist[pos] = true
+					do(fmt.Sprintf("hist %s %s", pos, p.refImageDigest()))
+				}
+			}
+			do("cluster 2")
+			do("allow 0")
+			do("up 0")
+			do("up 1")
+			do("sync")
+			do("n 0 createdb")
+			P := mk(0)
+			P.journalTx(P.randomShape(4), 0, 0)
+			record(P, do("n 0 state"))
+			do("sync")
+			do("n 1 state")
+			if short {
+				do("halt-ttl 0 short")
+			}
+			out := do("halt 1 900")
+			if short {
+				do("halt-ttl 0 long")
+			}
+			if !strings.HasPrefix(out, "ok ") {
+				c.Fail(what + ": halt lock not granted: " + out)
+				cs.End()
+				continue
+			}
+			// one forwarded transaction
+			R := mk(1)
+			R.img, R.tok = append([][]byte{}, P.img...), append([]string{}, P.tok...)
+			R.changeCtr = P.changeCtr + 1000
+			R.owner = 2
+			R.journalTx(R.randomShape(3), 0, 0)
+			record(R, do("n 1 state"))
+			do("n 0 state")
+			do("pause")
+			P.img, P.tok, P.changeCtr = R.img, R.tok, R.changeCtr
+			if blocked {
+				// another connection of the holder's application is reading
+				do("n 1 rlock 5 PENDING")
+				do("n 1 rlock 5 SHARED")
+				do("n 1 unlock 5 PENDING")
+			}
+			if got := do("unhalt-intr 1 900"); got != "eintr" {
+				c.Fail(what + ": the interrupted release answered " + got)
+			}
+			if blocked {
+				do("n 1 unlock 5 SHARED")
+			}
+			do("unhalt 1 900") // the retry (or the close of the lock file)
+			if short {
+				do("halt-expire 0")
+			}
+			P.restarted()
+			do("sync")
+			do("n 0 state")
+			do("n 1 state")
+			// the former holder cannot write any more (before anything else arrives from the primary)
+			W := mk(1)
+			W.img, W.tok = append([][]byte{}, P.img...), append([]string{}, P.tok...)
+			W.changeCtr = P.changeCtr + 2000
+			W.owner = 3
+			W.journalTx(W.randomShape(3), 0, 0)
+			do("n 1 state")
+			do("n 1 raw")
+			do("n 0 state")
+			// the primary is no longer halted
+			if got := do("n 0 rlock 9 PENDING"); got != "true" {
+				c.Fail(what + ": the holder released the halt lock (release retried after an interruption) but the primary still refuses its own connections: " + got)
+			} else {
+				do("n 0 unlock 9 PENDING")
+			}
+			pagerStep(c, P, 3)
+			record(P, do("n 0 state"))
+			do("sync")
+			do("n 1 state")
+			do("n 1 raw")
+			cs.End()
+			c.Count("directed.interrupted-release")
+			c.Nontrivial(fmt.Sprintf("directed-interrupted-release-%v-%v", blocked, short))
+		}
 	}
 }
